@@ -463,7 +463,15 @@ func (u *Unit) subPtr(structT types.Type, field string, p *Term) *Term {
 		u.ctx.declared[key] = true
 		u.ctx.Axiom(&Term{fmt.Sprintf("(and (= (birth (%s %s)) (birth %s)) (= (%s (%s %s)) %s) (not (= (%s %s) nilref)))", name, base.S, base.S, inv, name, base.S, base.S, name, base.S), SBool})
 	}
-	return mkptr(App(SRef, name, base), pidx(p))
+	res := mkptr(App(SRef, name, base), pidx(p))
+	u.subOrigins[res.S] = subOrigin{p, structT, field}
+	return res
+}
+
+type subOrigin struct {
+	base    *Term
+	structT types.Type
+	field   string
 }
 
 // loadVal loads a value of Go type t stored at pointer p (struct pointer /
